@@ -843,8 +843,6 @@ def gen_c12(tier, seed):
     p_add(insts, "C12", "width_same_u8", "quick", "U8", "None", 3, 4, 3, 2, None, ("Convolution", "Bilinear"))
     # SuperSampling whose nearest-neighbour intermediate happens to have the destination size
     p_add(insts, "C12", "ss_intermediate_is_dst_u8", "quick", "U8", "None", 4, 4, 2, 2, None, ("SuperSampling", "Box", 1), expect="nearest")
-    # SuperSampling whose nearest-neighbour intermediate happens to have the destination size
-    p_add(insts, "C12", "ss_intermediate_is_dst_u8", "quick", "U8", "None", 4, 4, 2, 2, None, ("SuperSampling", "Box", 1), expect="nearest")
     p_add(insts, "C12", "ss_width_same_u8", "quick", "U8", "None", 2, 6, 2, 2, None, ("SuperSampling", "Box", 1))
     # crop sizes that are NOT equal to the destination size, only close to it: the pass must run
     p_add(insts, "C12", "near_width_u8", "quick", "U8", "None", 4, 2, 3, 2, (1, 0, 2.6, 2), ("Convolution", "Bilinear"))
@@ -1160,6 +1158,13 @@ def main():
         print(r.stdout[-2000:], r.stderr[-2000:])
         raise SystemExit("pregen: x86 intrinsic model self-test FAILED - refusing to run SIMD obligations")
     info = fn(TIER, SEED)
+    gen_file = KH / "src" / ("gen_%s.rs" % prop.lower())
+    if gen_file.exists():
+        import re as _re
+        names = _re.findall(r"pub fn (\w+)\(\)", gen_file.read_text())
+        dup = sorted(set(n for n in names if names.count(n) > 1))
+        if dup:
+            raise SystemExit("pregen: duplicate harness names %s" % dup)
     info["x86_selftest"] = r.stdout.strip().splitlines()[-1]
     print("PREGEN-INFO " + json.dumps(info))
 
